@@ -590,6 +590,11 @@ func appendKey(b *bytes.Buffer, v px.Value) {
 			case *EnumType, *PatternType, *VariantType:
 				// equality disregards the order and the multiplicity of the members
 				appendSortedKeys(b, ppt.Parameters())
+			case *UriType:
+				// the parameters are compared as a Hash: equality disregards the order of the entries, and so does the key of a Hash
+				for _, p := range ppt.Parameters() {
+					appendKey(b, p)
+				}
 			default:
 				for _, p := range ppt.Parameters() {
 					appendTypeParamKey(b, p)
